@@ -510,7 +510,12 @@ def parseEnv (j : Json) : P Scen := do
 def tyErr (m : String) : Exc := { cls := .typeError, msg := "TypeError: " ++ m }
 
 /-- named user predicates; mirrored one-for-one in tools/impl.py -/
-def namedCond (id : String) (arg : Int) (v : Val) : Except Exc Bool :=
+def namedCond (id : String) (arg : Int) (v0 : Val) : Except Exc Bool :=
+  -- `isinstance(v, (int, float))` / `len(v)` see through an instance of a user subclass; `type(v) is int` does not
+  let v := match id, v0 with
+    | "even", _ => v0
+    | _, .sub _ b => b
+    | _, _ => v0
   match id with
   | "always" => .ok true
   | "never" => .ok false
